@@ -57,13 +57,15 @@ class Callable:
     def __init__(self, k, log):
         self.k, self.log, self.count = k, log, {}
 
-    def make(self, cid, ar, kl):
+    def make(self, cid, ar, kl, rz=False):
         self.count[cid] = 0
         outer = self
 
         def body(klong_arg, *args):
             outer.count[cid] += 1
             outer.log.append({"id": cid, "args": [txt(a) for a in args], "klok": (klong_arg is outer.k) if kl else True})
+            if rz:
+                raise [KeyError, TypeError, ValueError, IndexError][cid % 4](f"callable #{cid} fails (scripted)")
             return cid * 1000 + outer.count[cid]
         if kl:
             return [lambda klong: body(klong), lambda klong, x: body(klong, x), lambda klong, x, y: body(klong, x, y),
@@ -106,8 +108,8 @@ def execute(hist):
                 shown[-1] = f"klong[{e['n']!r}] = {e['v']}"
                 k[e["n"]] = pyval(e["v"])
             elif op == "setpy":
-                shown[-1] = f"klong[{e['n']!r}] = <callable #{e['id']} ({'klong, ' if e['kl'] else ''}{', '.join('xyz'[:e['ar']])})>"
-                k[e["n"]] = fac.make(e["id"], e["ar"], e["kl"])
+                shown[-1] = f"klong[{e['n']!r}] = <callable #{e['id']} ({'klong, ' if e['kl'] else ''}{', '.join('xyz'[:e['ar']])}){' raising' if e.get('rz') else ''}>"
+                k[e["n"]] = fac.make(e["id"], e["ar"], e["kl"], e.get("rz", False))
             elif op == "defkg":
                 shown[-1] = f"{e['n']}::{BODIES[e['body']]}"
                 k(f"{e['n']}::{BODIES[e['body']]}")
@@ -149,6 +151,8 @@ def execute(hist):
                 ev["res"] = err
                 if op == "callpy":
                     ev["log"] = list(log)
+                    if "fails (scripted)" in str(ex):
+                        ev["res"] = "raised"
             else:
                 ev["op"] = "failed-" + op        # the monitor ignores it; reported by the harness
                 ev["error"] = err
@@ -165,12 +169,12 @@ def run(tier, seed):
     d = stage_spec("py/PyAbs.tla", "py/PyGen.tla", "py/PyTrace.tla")
     mod = os.path.join(d, "PyGen.tla")
 
-    def cfg(name, names, argt, maxops, maxid=2):
+    def cfg(name, names, argt, maxops, maxid=2, theme="all"):
         p = os.path.join(d, name)
         q = lambda xs: "{" + ", ".join(json.dumps(x) for x in xs) + "}"   # noqa
         with open(p, "w") as f:
-            f.write("INIT Init\nNEXT Next\nCONSTANTS\n  Names = %s\n  Slots = {\"w1\"}\n  MaxId = %d\n  MaxOps = %d\n  ArgT = %s\n"
-                    "INVARIANT Good\nINVARIANT Emit\nCHECK_DEADLOCK FALSE\n" % (q(names), maxid, maxops, q(argt)))
+            f.write("INIT Init\nNEXT Next\nCONSTANTS\n  Names = %s\n  Slots = {\"w1\"}\n  MaxId = %d\n  MaxOps = %d\n  ArgT = %s\n  Theme = \"%s\"\n"
+                    "INVARIANT Good\nINVARIANT Emit\nCHECK_DEADLOCK FALSE\n" % (q(names), maxid, maxops, q(argt), theme))
         return p
     depth = 3 if not thorough else 4
     r1 = run_tlc(mod, cfg("tree.cfg", ["f"], ["1", "'ab'"] if not thorough else ["1"], depth), workers=1, timeout=7200)
@@ -189,6 +193,15 @@ def run(tier, seed):
     sims = [p for p in r2.prints if isinstance(p, list)]
     rnd.shuffle(sims)
     hists += sims[:nsim]
+    for theme, names in (("kg", ["f"]), ("py", ["f"])):
+        r3 = run_tlc(mod, cfg(f"sim_{theme}.cfg", names, ARGT[:3] + ARGT[4:], 7, maxid=3, theme=theme), workers=1,
+                     simulate=f"num={nsim // 3}", depth=8, seed=seed + 4, timeout=7200)
+        ev.add_tlc(f"PyGen.tla -simulate num={nsim // 3}, theme {theme}: histories of 7 operations on one name", r3)
+        if r3.violated:
+            vd.violation({"what": f"design-level: PyGen.tla violates {r3.violated}", "counterexample": r3.cex[:4000]})
+        sims = [p for p in r3.prints if isinstance(p, list)]
+        rnd.shuffle(sims)
+        hists += sims[:nsim]
     if len(hists) < 500:
         raise MachineryError(f"only {len(hists)} histories emitted")
     common.use_repo()
